@@ -127,6 +127,84 @@ def run(chk):
                                       dict(length=L, signals=[(s.name, s.start_bit, s.size, s.is_little_endian, s.is_signed, s.is_float) for s in sigs], payload=p.hex()),
                                       p.hex(), enc.hex())
                         break
+    # one Frame object encoded repeatedly while its layout is edited in place (frame length and signal count unchanged):
+    # encoding must follow the CURRENT definition, exactly as a fresh frame with that definition does
+    for _ in range(250 if not thorough else 4000):
+        L = rng.choice([1, 2, 3, 8, 8, 12, 64])
+        k = rng.choice([1, 2, 3, 4])
+        lays = []
+        for _try in range(40):
+            lay = layouts.gen_layout(rng, L, max_signals=k, le_prob=rng.choice([0.0, 0.5, 1.0]))
+            if len(lay) >= k:
+                lays.append(lay[:k])
+            if len(lays) == 4:
+                break
+        if len(lays) < 2:
+            continue
+        fr = C.Frame("f", size=L)
+        db = C.CanMatrix()
+        signed = [rng.random() < 0.5 for _ in range(k)]
+        for i, d in enumerate(lays[0]):
+            fr.add_signal(C.Signal("s%d" % i, start_bit=d["start"], size=d["size"], is_little_endian=d["le"], is_signed=signed[i]))
+        fr.arbitration_id = C.ArbitrationId(0x123, False)
+        db.add_frame(fr)
+        hist = []
+        for step, lay in enumerate(lays):
+            if step:
+                how = rng.choice(["attr", "attr", "setstart", "replace"])
+                for i, d in enumerate(lay):
+                    s = fr.signals[i]
+                    if how == "replace" and i == 0:
+                        fr.signals[0] = C.Signal("s0", start_bit=d["start"], size=d["size"], is_little_endian=d["le"], is_signed=signed[0])
+                        continue
+                    s.size = d["size"]
+                    s.is_little_endian = d["le"]
+                    if how == "setstart":
+                        s.set_startbit(d["start"])
+                    else:
+                        s.start_bit = d["start"]
+            hist.append([(d["start"], d["size"], d["le"]) for d in lay])
+            fresh = C.Frame("f", size=L)
+            for i, d in enumerate(lay):
+                fresh.add_signal(C.Signal("s%d" % i, start_bit=d["start"], size=d["size"], is_little_endian=d["le"], is_signed=signed[i]))
+            sub = sorted(rng.sample(range(k), rng.randrange(1, k + 1)))
+            data = {}
+            for i in sub:
+                lo, hi = raw_range(lay[i]["size"], signed[i])
+                data["s%d" % i] = rng.choice([lo, hi, rng.randrange(lo, hi + 1), rng.randrange(lo, hi + 1)])
+            route = rng.choice(["Frame.encode", "CanMatrix.encode", "signals_to_bytes"])
+            try:
+                if route == "Frame.encode":
+                    enc = bytes(fr.encode(dict(data)))
+                elif route == "CanMatrix.encode":
+                    enc = bytes(db.encode(fr.arbitration_id, dict(data)))
+                else:
+                    full = {s.name: data.get(s.name, 0) for s in fr.signals}
+                    enc = bytes(fr.signals_to_bytes(full))
+                    data = full
+                    sub = list(range(k))
+            except Exception as e:
+                enc = "raise:" + type(e).__name__
+            try:
+                want = bytes(fresh.encode(dict(data)))
+            except Exception as e:
+                want = "raise:" + type(e).__name__
+            chk.case(("edit-history", L, step, tuple(map(tuple, hist)), tuple(sorted(data.items()))), step > 0)
+            chk.count("encode-after-in-place-edit" if step else "encode-before-edit")
+            bad = enc != want
+            if not bad and isinstance(enc, bytes):
+                dec = fresh.decode(enc)
+                covered = set()
+                for i in sub:
+                    covered |= set(layouts.positions(lay[i]["le"], lay[i]["start"], lay[i]["size"]))
+                    bad = bad or dec["s%d" % i].raw_value != data["s%d" % i]
+                bad = bad or any((enc[n // 8] >> (n % 8)) & 1 for n in range(8 * L) if n not in covered)
+            if bad:
+                chk.violation("encode-after-edit", "encoding does not follow the frame definition after signals were edited in place "
+                              "(a fresh frame with the same definition encodes differently, or the values do not decode back)",
+                              dict(length=L, route=route, step=step, layouts=hist, signed=signed, data=data),
+                              want.hex() if isinstance(want, bytes) else want, enc.hex() if isinstance(enc, bytes) else enc)
+                break
     # overlapping layouts (tie only): precedence of the little array over the big array, later over earlier
     for _ in range(200 if not thorough else 2000):
         L = rng.choice([1, 2, 3, 8])
